@@ -356,7 +356,7 @@ class Sym:
         m = re.match(r"(-?\d+)_(\w+)$", c)
         if m and m.group(2) in INT_W:
             return bv(bvconst(int(m.group(1)), INT_W[m.group(2)]), INT_W[m.group(2)], m.group(2) in SIGNED)
-        m = re.match(r"(\w+)::(MAX|MIN)$", c)
+        m = re.match(r"(\w+)::(MAX|MIN)$", c) or re.match(r"core::num::<impl (\w+)>::(MAX|MIN)$", c)
         if m and m.group(1) in INT_W:
             w = INT_W[m.group(1)]
             if m.group(1) in SIGNED:
